@@ -148,6 +148,51 @@ def world_for(case, i, rng):
     return {"name": "bad-%d-%s" % (i, w), "aw": False, "nodes": nodes, "views": views, "conns": [{"id": 1, "reqs": reqs}], "probe": True}, cli
 
 
+def memory_bound_case(rep, binary, proto_path, scratch):
+    """READ_FILE announces and sends up to 2^31-1 bytes on one 16-byte request; on a host with little memory the server has to
+    stream them, not gather them.  The binary runs with `ulimit -v` (2.5 GB of address space: the Go runtime itself starts with a little less); a client asks for 2 GiB - 1 of a
+    sparse 3 GiB file and walks away after a part, another one must still be served."""
+    import binsrv
+    import time
+    base = os.path.join(scratch, "membound")
+    root = os.path.join(base, "root")
+    os.makedirs(root)
+    with open(os.path.join(root, "big.iso"), "wb") as f:
+        f.truncate(3 * 1024 ** 3)
+    open(os.path.join(root, "small.txt"), "w").write("hello")
+    pt = proto_path if isinstance(proto_path, binsrv.Proto) else binsrv.Proto(proto_path)
+    cmd = "ulimit -v 2500000; exec %s server --root %s --listen-addr 127.0.0.1:0 --json-log" % (binary, root)
+    s = binsrv.Server("/bin/sh", ["-c", cmd], cwd=base)
+    try:
+        if not s.addr:
+            crashed, txt = s.crashed()
+            raise common.CheckError("memory-bound server did not start (the Go runtime may need more address space): " + txt[-300:])
+        a = binsrv.Client(s.addr)
+        a.send(pt.encode("OPEN_FILE", path="/big.iso"))
+        a.recv_exact(pt.fixed_len("OPEN_FILE"), 5.0)
+        a.send(pt.encode("READ_FILE", limit=2 ** 31 - 1, off=0))
+        got, st = a.recv_exact(4 + 1024 * 1024, 60.0)       # the count and the first MiB, then walk away
+        a.close()
+        time.sleep(0.5)
+        alive = s.alive()
+        served = False
+        if alive:
+            b = binsrv.Client(s.addr)
+            b.send(pt.encode("STAT_FILE", path="/small.txt"))
+            r, st2 = b.recv_exact(pt.fixed_len("STAT_FILE"), 5.0)
+            served = st2 == "ok"
+            b.close()
+        rep.cov["evaluations"] += 1
+        if not (alive and served):
+            crashed, txt = s.crashed()
+            first = [l for l in txt.splitlines() if l.startswith("fatal error:") or l.startswith("panic:") or "out of memory" in l]
+            rep.violation("crash:membound:" + (first[0][:80] if first else "not serving"),
+                          "the server (address space limited to 2.5 GB) does not survive one READ_FILE of 2^31-1 bytes on a sparse 3 GiB file: "
+                          "alive=%s, next client served=%s, first reply bytes=%d\n%s" % (alive, served, len(got), txt[-1500:]), {})
+    finally:
+        s.stop()
+
+
 def mutate(rng, b):
     b = bytearray(b)
     for _ in range(rng.randrange(1, 6)):
@@ -329,6 +374,8 @@ def run(tier, seed, replay=None):
                 rep.violation("cli-crash:%s:%s" % (cli[0], (first[0] if first else "?")[:80]),
                               "the CLI crashed (%s) on hostile content %s\n%s" % (" ".join(args[:2]), json.dumps(c), se[-1200:]),
                               {"case.json": c, "nodes.json": w["nodes"], "args.json": args})
+        # the real binary with bounded address space (a small NAS): one request for a huge ordinary read must not kill it
+        memory_bound_case(rep, binary, proto, scratch)
         rep.cov["rule"] = ("structured hostile content enumerated by TLC (BadContent.tla: %d cases of PARAM.SFO, region tables, key files, 3k3y area lengths, odd names / "
                            "tree shapes) served by the real server in a worker process and given to the real CLI; %d hostile byte streams (random, mutated valid sessions, "
                            "extreme declared lengths, payloads shaped like commands), re-framed by the protocol tables and validated like any other trace; after "
